@@ -18,7 +18,7 @@ def obligations(tier):
         ch("layout_long", "harness.C17_sccwriter", timeout=T, functions=F, exhaustive=True, bounds="4-10 words (two alternating lengths): up to several rows"),
         ch("charset", "harness.C17_sccwriter", timeout=T, functions=F, exhaustive=True, bounds="every character of the CEA-608 basic table (0x20-0x7E) at three positions in a word: write then read gives it back"),
         ch("reread2", "harness.C17_sccwriter", timeout=T, functions=F, exhaustive=True,
-           bounds="two captions (one or two lines) 3 s / 1.6 s / 1 s / 0.7 s apart: same words in order, one caption each, timecodes non-decreasing, each visible within three frames of its start"),
+           bounds="two captions (one or two lines) 3 s / 1.6 s / 1 s / 0.7 s / 0.4 s / 0.2 s / 0.1 s / 0 s apart (the closer ones end inside the next cue's loading time): same words in order, one caption each, timecodes non-decreasing, each visible within three frames of its start"),
         ch("single_caption_start", "harness.C17_sccwriter", timeout=T, functions=F, exhaustive=True, bounds="one caption at 5 s, 20 s, 1 h, 23 h 53 min: visible within three frames"),
     ]
     bands = [(20000000, 20999999), (3599500000, 3600500000), (59500000, 60500000)]
